@@ -5,6 +5,7 @@ package main
 import (
 	"strings"
 	"testing"
+	"time"
 
 	"verifharness/hx"
 	"verifharness/sim"
@@ -25,9 +26,17 @@ var kinds = map[string]kind{
 	"txn":   {genTxn, runTxn},
 	"eos":   {genEos, runEos},
 	"cls":   {genCls, runCls},
+	"ackr":  {genAckr, runAckr},
+	"share": {genShare, runShare},
 }
 
 func TestMain(m *testing.M) {
+	sim.DeadlineFor = func(tk []string) time.Duration {
+		if tk[0] == "share" {
+			return 30 * time.Second // a share scenario takes about a second; see share_test.go on HANG
+		}
+		return 0
+	}
 	sim.Main(m, func(a hx.Args) {
 		for _, k := range strings.Split(a.Extra["mode"], ",") {
 			if kd, ok := kinds[k]; ok {
